@@ -180,8 +180,8 @@ impl<K: HKey> Session<K> {
                                     drop(cas);
                                     return r;
                                 }
-                                format!("ok orphans={} missing={} corrupted={} staging={} total={}",
-                                    s.orphaned_blobs.len(), s.missing_blobs.len(), s.corrupted_blobs.len(), s.staging_files.len(), s.total_blobs)
+                                format!("ok orphans={} missing={} corrupted={} staging={} total={} invalid={}",
+                                    s.orphaned_blobs.len(), s.missing_blobs.len(), s.corrupted_blobs.len(), s.staging_files.len(), s.total_blobs, s.invalid_files.len())
                             }
                             None => "ok noscan".into(),
                         };
